@@ -8,6 +8,7 @@ import (
 	"strconv"
 	"strings"
 
+	"github.com/antchfx/xpath"
 	"github.com/jf-tech/omniparser"
 	"github.com/jf-tech/omniparser/extensions/omniv21/fileformat/flatfile"
 	"github.com/jf-tech/omniparser/idr"
@@ -28,6 +29,7 @@ type hier struct {
 	Mn  []int    `json:"mn"`
 	Mx  []int    `json:"mx"`
 	Tgt int      `json:"tgt"`
+	Flt bool     `json:"flt,omitempty"` // the target (a leaf) carries the filter "first unit has an odd index"
 }
 
 type c05Case struct {
@@ -117,6 +119,10 @@ func viewOf(h *hier, out [][][]int, impl string) [][][]interface{} {
 	return res
 }
 
+// Hierarchy!Passes as an xpath on the delivered instance (its first unit travels in the column / element "u")
+// (number(u): the engine's arithmetic operators do not convert node-sets themselves - C03 known finding)
+const hierFilter = ".[number(u) mod 2 = 1]"
+
 // ---- implementation 1: flatfile.HierarchyReader with a scripted RecReader
 
 type hDecl struct {
@@ -198,7 +204,11 @@ func runScripted(c *c05Case) (obs c05Obs) {
 		decls = append(decls, &hDecl{h, k})
 	}
 	rr := &scriptedRecReader{units: c.Input}
-	hr := flatfile.NewHierarchyReader(decls, rr, nil)
+	var flt *xpath.Expr
+	if h.Flt {
+		flt = xpath.MustCompile(hierFilter)
+	}
+	hr := flatfile.NewHierarchyReader(decls, rr, flt)
 	obs.Out = [][][]interface{}{}
 	for i := 0; i < 10*(len(c.Input)+h.N+2); i++ {
 		n, err := hr.Read()
@@ -313,9 +323,13 @@ func renderSchema(h *hier, format string) string {
 	case "edi":
 		fd = `"segment_delimiter": "~", "element_delimiter": "*", "segment_declarations": [` + body + `]`
 	}
+	fx := ""
+	if h.Flt {
+		fx = `"xpath": ` + jstr(hierFilter) + `, `
+	}
 	return `{"parser_settings": {"version": "omni.2.1", "file_format_type": "` + format + `"},
  "file_declaration": {` + fd + `},
- "transform_declarations": {"FINAL_OUTPUT": {"object": {"x": {"const": "1"}}}}}`
+ "transform_declarations": {"FINAL_OUTPUT": {` + fx + `"object": {"x": {"const": "1"}}}}}`
 }
 
 // renderInput concretises units; variant 0: every unit terminated; variant 1: last unit unterminated and
@@ -571,6 +585,7 @@ func genHier(r *rand.Rand, n int, names []string) hier {
 		}
 	}
 	h.Tgt = 1 + r.Intn(n)
+	h.Flt = !h.Grp[h.Tgt-1] && r.Intn(3) == 0
 	return h
 }
 
